@@ -18,7 +18,10 @@ META = dict(
                "evaluates the same laws on the recorded walks. Set-valued functions of a small graph: small-scope "
                "exhaustion plus replay is the right level.",
     level_note="The client's cache values are the true parent tuples (what get_parent_map returned); `missing` only "
-               "contains ghosts / null: (no ghost-filling race). vcsgraph's breadth-first searcher (Rust) is executed "
+               "contains ghosts / null:. Ghost filling (a ghost recorded missing that the server has by replay time, "
+               "modelled as a root revision) is exercised for both variants: the limited variant (the one in use, "
+               "depth 100) must still walk exactly the client's keys; the full variant drops missing keys from the "
+               "stop set by design, so there only 'the count check refuses a wrong walk' is judged. vcsgraph's breadth-first searcher (Rust) is executed "
                "on both sides, and modelled for the conformance comparison. For the limited variant the intended set "
                "is the client's own walk (as DESIGN.md states). Trusted: TLC, the JSON bridge.",
 )
@@ -55,6 +58,7 @@ def _parents(d, par, x):
 
 # ----------------------------------------------------------------------------- real repository holding many DAGs
 def _build_repo(dags):
+    """dags: list of (par, filled); the ghosts in `filled` exist in this (the server's) repository as root revisions."""
     from breezy import controldir, revision as R
     from bzrformats import inventory
     from dromedary.memory import MemoryServer
@@ -63,10 +67,10 @@ def _build_repo(dags):
     repo = controldir.format_registry.make_controldir("2a").initialize(ms.get_url()).create_repository()
     with repo.lock_write():
         repo.start_write_group()
-        for d, par in enumerate(dags):
-            for i in range(1, len(par) + 1):
+        for d, (par, filled) in enumerate(dags):
+            for i in list(filled) + list(range(1, len(par) + 1)):
                 rid = _rid(d, i)
-                parents = [_rid(d, p) for p in par[i - 1]]
+                parents = [] if i > 100 else [_rid(d, p) for p in par[i - 1]]
                 inv = inventory.Inventory(root_revision=rid)
                 inv.revision_id = rid
                 repo.texts.add_lines((inv.root.file_id, rid), [], [])
@@ -84,12 +88,12 @@ def _observe(repo, req, d, c):
     par = c["par"]
     K = {_rid(d, k): _parents(d, par, k) for k in c["K"]}
     keys = []
+    missing = {_rid(d, m) for m in c["missing"]}
     if c["kind"] == "full":
-        missing = {_rid(d, m) for m in c["missing"]}
         start, stop, count = vf_search.search_result_from_parent_map(K, missing)
     else:
         tips = {_rid(d, t) for t in c["tips"]}
-        start, stop, count = vf_search.limited_search_result_from_parent_map(K, set(), tips, c["depth"])
+        start, stop, count = vf_search.limited_search_result_from_parent_map(K, missing, tips, c["depth"])
         if K:
             heads = vf_search._find_possible_heads(K, tips, c["depth"])
             s, _found = vf_search._run_search(K, heads, set(tips))
@@ -102,10 +106,15 @@ def _observe(repo, req, d, c):
             "keys": keys, "walk": _nums(walked.get_keys()), "ok": err is None and result is not None}
 
 
+def _gkey(c):
+    return tuple(tuple(ps) for ps in c["par"]), tuple(c["filled"])
+
+
 def _klass(c):
     ghosts = any(p > 100 for ps in c["par"] for p in ps)
     feats = [f for f, on in (("null-missing", 0 in c["missing"]), ("null-cached", 0 in c["K"]),
-                             ("ghost-parents", ghosts), ("ghost-missing", any(m > 100 for m in c["missing"]))) if on]
+                             ("ghost-parents", ghosts), ("ghost-missing", any(m > 100 for m in c["missing"])),
+                             ("ghost-filled", bool(c["filled"]))) if on]
     return c["kind"] + ":" + ("+".join(feats) or "plain")
 
 
@@ -114,7 +123,8 @@ def _work(ctx, items):
     req = SmartServerRepositoryRequest(None)
     for item in items:
         if "mc" in item:
-            tlc.check(ctx, "SearchRecipeMC", cfg_text=table.cfg(item["mc"], ("RecipeExact",)), workers=item["workers"],
+            tlc.check(ctx, "SearchRecipeMC", cfg_text=table.cfg(item["mc"], ("RecipeExact", "CheckRefusesWrongWalk")),
+                      workers=item["workers"],
                       label="model check %s" % item["mc"], timeout=1500)
             continue
         if "witness" in item:
@@ -124,33 +134,34 @@ def _work(ctx, items):
         cases = item["cases"]
         dags, index = [], {}
         for c in cases:
-            key = tuple(tuple(ps) for ps in c["par"])
+            key = _gkey(c)
             if key not in index:
                 index[key] = len(dags)
-                dags.append(c["par"])
+                dags.append((c["par"], c["filled"]))
         rows = []
         # one real repository per BATCH graphs (building one pack with thousands of revisions is super-linear)
         for lo in range(0, len(dags), BATCH):
             ms, repo = _build_repo(dags[lo:lo + BATCH])
             try:
                 for c in cases:
-                    d = index[tuple(tuple(ps) for ps in c["par"])]
+                    d = index[_gkey(c)]
                     if not lo <= d < lo + BATCH:
                         continue
                     rows.append({"c": c, "impl": _observe(repo, req, d - lo, c)})
                     ctx.count(1)
                     if len(c["K"]) >= 2:
-                        ctx.nontrivial((c["kind"], tuple(tuple(ps) for ps in c["par"]), tuple(c["K"]),
-                                        tuple(c["missing"]), tuple(c["tips"]), c["depth"]))
+                        ctx.nontrivial((c["kind"], _gkey(c), tuple(c["K"]), tuple(c["missing"]), tuple(c["tips"]),
+                                        c["depth"]))
             finally:
                 ms.stop_server()
         for row, failed, drift in table.judge(ctx, "SearchRecipeTrace", rows, workers=2):
             c = row["c"]
             for law in failed:
                 ctx.violation("law:%s:%s" % (law, _klass(c)),
-                              "law %s fails: graph %s, cache %s, missing %s%s -> recipe (start %s, stop %s, count %s), "
+                              "law %s fails: graph %s%s, cache %s, missing %s%s -> recipe (start %s, stop %s, count %s), "
                               "server walked %s, count check %s%s" % (
-                                  law, c["par"], c["K"], c["missing"],
+                                  law, c["par"], ", ghosts %s present on the server by now" % c["filled"]
+                                  if c["filled"] else "", c["K"], c["missing"],
                                   ", tips %s depth %s" % (c["tips"], c["depth"]) if c["kind"] == "limited" else "",
                                   row["impl"]["start"], row["impl"]["stop"], row["impl"]["count"],
                                   row["impl"]["walk"], "passed" if row["impl"]["ok"] else "FAILED",
@@ -175,16 +186,19 @@ def _random_cases(rng, n, maxn):
             par.append(sorted(rng.sample(cands, k)))
         present = [0] + list(range(1, size + 1))
         K = sorted(x for x in present if rng.random() < (0.25 if x == 0 else 0.6))
-        if rng.random() < 0.5:
-            missing = sorted(x for x in [0] + ghosts if x not in K and rng.random() < 0.5)
-            out.append({"kind": "full", "par": par, "K": K, "missing": missing, "tips": [], "depth": 0})
+        missing = sorted(x for x in [0] + ghosts if x not in K and rng.random() < 0.5)
+        filled = sorted(x for x in missing if x > 100 and rng.random() < 0.3)
+        if rng.random() < 0.4:
+            out.append({"kind": "full", "par": par, "K": K, "missing": missing, "tips": [], "depth": 0,
+                        "filled": filled})
         else:
             if not K:
                 K = [size]
             pool = present + ghosts
             tips = sorted(rng.sample(pool, rng.randint(1, 3)))
-            out.append({"kind": "limited", "par": par, "K": K, "missing": [], "tips": tips,
-                        "depth": rng.randint(0, 4)})
+            missing = [m for m in missing if m not in K]
+            out.append({"kind": "limited", "par": par, "K": K, "missing": missing, "tips": tips,
+                        "depth": rng.randint(0, 4), "filled": filled})
     return out
 
 
@@ -192,18 +206,23 @@ def _mc(n, g, p, t, d):
     return {"MaxN": n, "NGhosts": g, "MaxPar": p, "MaxTips": t, "MaxDepth": d}
 
 
+def _gen(n, g, p, t, dmin, dmax, mfall):
+    return dict(_mc(n, g, p, t, dmax), MinDepth=dmin, MFAll=mfall)
+
+
 def run(ctx):
     env.init()
     small = _mc(3, 1, 2, 1, 1)
-    items = [{"witness": "WitnessPartialCache", "consts": small}]
+    items = [{"witness": "WitnessPartialCache", "consts": small},
+             {"witness": "WitnessFullNotFillRobust", "consts": small}]
     if ctx.quick:
         items.append({"mc": _mc(4, 1, 2, 0, 0), "workers": 4})      # limited variant: table (<= 3) + random cases
-        tab = _mc(3, 1, 2, 1, 1)
+        tab = _gen(3, 1, 2, 1, 1, 1, "FALSE")
         nrand, maxn, nchunks = 2000, 6, 4
     else:
-        items += [{"mc": _mc(4, 1, 2, 1, 2), "workers": 4}, {"mc": _mc(4, 2, 2, 0, 0), "workers": 4},
-                  {"mc": _mc(5, 1, 2, 0, 0), "workers": 4}, {"mc": _mc(3, 2, 3, 1, 3), "workers": 4}]
-        tab = _mc(3, 2, 2, 1, 2)
+        items += [{"mc": _mc(4, 1, 2, 1, 1), "workers": 4}, {"mc": _mc(4, 2, 2, 0, 0), "workers": 4},
+                  {"mc": _mc(5, 1, 2, 0, 0), "workers": 4}, {"mc": _mc(3, 2, 3, 1, 2), "workers": 4}]
+        tab = _gen(3, 1, 2, 1, 1, 2, "FALSE")
         nrand, maxn, nchunks = 20000, 7, 24
     cases = [k["c"] for k in table.generate(ctx, "SearchRecipeGen", tab, witnesses=(), workers=4,
                                             env={"VF_WITNESSES": "1"},
@@ -217,11 +236,13 @@ def run(ctx):
     core.fork_map(ctx, _work, items, chunks_per_proc=4)
     ctx.rule("revision DAG: revision i has <= MaxPar parents among revisions < i and ghosts; client cache K = any "
              "subset of the present revisions with / without null:; missing = any subset of ghosts + null: disjoint "
-             "from K; limited variant: any non-empty K, tips among revisions, null: and ghosts, depth. Exhaustive "
+             "from K (both variants); filled = ghosts recorded missing that exist on the server at replay time; "
+             "limited variant: any non-empty K, tips among revisions, null: and ghosts, depth. Exhaustive "
              "table (TLC) for %s; %d seeded random cases with <= %d revisions, 2 ghosts, <= 3 parents, <= 3 tips, "
              "depth <= 4. Non-trivial = cache with >= 2 keys." % (tab, nrand, maxn))
     ctx.cov["exhaustive"] = True
-    ctx.assume("cache values are the true parent tuples; missing contains only ghosts / null:")
+    ctx.assume("cache values are the true parent tuples at the time the client asked; missing contains only ghosts / "
+               "null:; a filled ghost is a root revision")
 
 
 def replay(ctx, rep):
@@ -229,7 +250,8 @@ def replay(ctx, rep):
     env.init()
     from breezy.bzr.smart.repository import SmartServerRepositoryRequest
     c = rep["replay"]["c"]
-    ms, repo = _build_repo([c["par"]])
+    c.setdefault("filled", [])
+    ms, repo = _build_repo([(c["par"], c["filled"])])
     try:
         impl = _observe(repo, SmartServerRepositoryRequest(None), 0, c)
     finally:
@@ -237,6 +259,8 @@ def replay(ctx, rep):
     print("replayed %s\n  -> %s" % (c, impl))
     ctx.count(1, traces=1)
     intended = set(c["K"]) if c["kind"] == "full" else set(impl["keys"])
-    if set(impl["walk"]) - {0} != intended - {0} or not impl["ok"]:
+    guaranteed = not (c["kind"] == "full" and c["filled"])
+    wrong = set(impl["walk"]) - {0} != intended - {0}
+    if (guaranteed and (wrong or not impl["ok"])) or impl["ok"] != (impl["count"] == len(impl["walk"])):
         ctx.violation(rep["signature"], "server walked %s, intended %s, count check %s" % (
             impl["walk"], sorted(intended), "passed" if impl["ok"] else "FAILED"), rep["replay"])
